@@ -1,14 +1,15 @@
+# groups added in round 2: heartbeat consumer type functions (1016h through SDO / at node initialisation), timer pool set-up, minimal timer time
 def _h(name, fn, op, reach, props):
     return dict(name=name, fn=fn, form="explicit", harness="hbc_fn.c", static_tu="object/cia301/co_hb_cons.c", defs=["VW_OP=%d" % op], nondet_static=True,
                 tus=["object/basic/co_integer8.c", "core/co_nmt.c"], loop_tus={}, unwind_all=6, reach=["post"] + reach,
                 props=props, timeout=600, cost=10, object_bits=10,
                 bounded="consumer chain of <= 3 entries (arbitrary well-formed chain, all node ids, times, timers, counters symbolic)")
-GROUPS = [_h("hbc_type_write", "COTNmtHbConsWrite", 5, ["a", "b", "c"], {"X99": "quick"}), _h("hbc_type_read", "COTNmtHbConsRead", 6, ["a", "b"], {"X99": "quick"}),
-          _h("hbc_type_size", "COTNmtHbConsSize", 7, ["a", "b"], {"X99": "quick"}), _h("hbc_type_init", "COTNmtHbConsInit", 8, ["a", "b"], {"X99": "quick"})]
+GROUPS = [_h("hbc_type_write", "COTNmtHbConsWrite", 5, ["a", "b", "c"], {"C11": "quick", "C01": "quick"}), _h("hbc_type_read", "COTNmtHbConsRead", 6, ["a", "b"], {"C11": "quick", "C01": "quick"}),
+          _h("hbc_type_size", "COTNmtHbConsSize", 7, ["a", "b"], {"C11": "quick", "C01": "quick"}), _h("hbc_type_init", "COTNmtHbConsInit", 8, ["a", "b"], {"C11": "quick", "C20": "quick", "C01": "quick"})]
 GROUPS += [dict(name="tmr_init", fn="COTmrInit", form="explicit", harness="tmr_init.c", static_tu="core/co_tmr.c", tus=[], loop_tus={}, defs=["VW_OP=0", "VW_TMR_N=4"], nondet_static=True,
-                unwind_all=5, reach=["post", "a", "b"], props={"X99": "quick"}, timeout=600, cost=5, object_bits=10,
+                unwind_all=5, reach=["post", "a", "b"], props={"C07": "quick", "C20": "quick", "C01": "quick"}, timeout=600, cost=5, object_bits=10,
                 bounded="timer pool of 4 slots (pool memory and manager state arbitrary before the call)")]
 for _f, _u in ((300, 10000), (1500, 10000), (1000, 10000), (7, 10000), (10001, 10000), (48000000, 10000)):
     GROUPS.append(dict(name="tmr_mintime_%d_%d" % (_f, _u), fn="COTmrGetMinTime", form="explicit", harness="tmr_init.c", static_tu="core/co_tmr.c", tus=[], loop_tus={}, defs=["VW_OP=1", "VW_FREQ=%du" % _f, "VW_UNIT=%du" % _u], nondet_static=True,
-                       unwind_all=3, reach=["post", "a"] + (["b"] if _f < _u else []), props={"X99": "quick"}, timeout=600, cost=5, object_bits=10,
+                       unwind_all=3, reach=["post", "a"] + (["b"] if _f < _u else []), props={"C16": "quick", "C07": "quick", "C01": "quick"}, timeout=600, cost=5, object_bits=10,
                        bounded="timer frequency %d Hz with time unit 1/%d s (one of 6 listed pairs: dividing, multiple, neither); every 16-bit time" % (_f, _u)))
